@@ -156,6 +156,42 @@
       (when (not= (string ev) ref)
         (fail "clone-raw" s (string "undrained clone after consume of " k " bytes (" nm "): whole=[" ref "] got=[" ev "]"))))))
 
+(defn check-api [s n ref]
+  # 1. parser/byte instead of parser/consume
+  (let [p (parser/new) ev @""]
+    (each b s (parser/byte p b) (c11/drain p ev))
+    (c11/finish p ev)
+    (++ runs)
+    (when (not= (string ev) ref)
+      (fail "byte-api" s (string "whole=[" ref "] parser/byte=[" ev "]"))))
+  # 2. the same bytes from a buffer, through the index argument only
+  (let [p (parser/new) ev @"" b (buffer "xx" s)]
+    (var i 2)
+    (while (< i (+ n 2))
+      (+= i (parser/consume p b i))
+      (c11/drain p ev))
+    (c11/finish p ev)
+    (++ runs)
+    (when (not= (string ev) ref)
+      (fail "buffer-offset" s (string "whole=[" ref "] buffer+offset=[" ev "]"))))
+  # 3. lazy draining: at most one value is taken per byte while more input arrives (the queue
+  #    is only emptied before an error is taken, as the docstring of parser/error demands)
+  (let [p (parser/new) ev @""]
+    (loop [k :range [0 n]]
+      (parser/byte p (in s k))
+      (if (= :error (parser/status p))
+        (c11/drain p ev)
+        (when (parser/has-more p)
+          (def tup (parser/produce p true))
+          (def [l c] (tuple/sourcemap tup))
+          (buffer/format ev "V%d:%d " l c)
+          (c11/vprint (in tup 0) ev)
+          (buffer/push ev "\n"))))
+    (c11/finish p ev)
+    (++ runs)
+    (when (not= (string ev) ref)
+      (fail "lazy-drain" s (string "whole=[" ref "] one-value-per-byte=[" ev "]")))))
+
 (def shapes @{})
 (var nstr 0)
 
@@ -168,5 +204,6 @@
   (put shapes (string sh) true)
   (check-chunks s n ref)
   (check-queries s n ref)
+  (check-api s n ref)
   (check-clone s n ref))
 
